@@ -280,6 +280,8 @@ func pwCompile(code, tmpl string) pwTemplate {
 		case "c":
 			re.WriteString("((?:" + pwQuoted + " -> )*" + pwQuoted + ")")
 			kinds = append(kinds, 'l')
+		case "A":
+			re.WriteString("@")
 		case "o":
 			re.WriteString(`((?: on Windows| on macOS or Linux)?)`)
 			kinds = append(kinds, 'n')
